@@ -34,9 +34,9 @@ type Ctx struct {
 	Fset    *token.FileSet
 	ModPath string
 	// library source functions (methods and functions with syntax), sorted by name
-	Funcs   []*ssa.Function
-	FuncBy  map[string]*ssa.Function
-	LibPkgs []string
+	Funcs       []*ssa.Function
+	FuncBy      map[string]*ssa.Function
+	LibPkgs     []string
 	ClientFuncs []*ssa.Function // functions of the client packages (test, demo), loaded on demand
 
 	eff     *effEngine
